@@ -177,6 +177,30 @@ def check(prog, run):
     if acc and (not adef or "OrderedDict" not in ast.unparse(adef[0].value) and ast.unparse(adef[0].value) not in ("{}", "dict()")):
         run.report(r, "%s:Executor.execute_fields_serially:accumulator" % EXE, f.where(), "the accumulator is not an insertion-ordered mapping")
     _s3(prog, run)
+    _s4(prog, run)
+
+
+def _s4(prog, run):
+    r = run.rule("S4", "Executor.resolve_field hands back the field's value fully unwrapped (runtime.unwrap_value around the "
+                       "map_value over the resolver result), so the continuation of the serial chain fires only after the field's "
+                       "whole sub-selection completed", 1)
+    f = prog.get_func(EXE, "Executor.resolve_field")
+    run.looked_at(f)
+    rets = []
+    for n in own_nodes(f.node):
+        if isinstance(n, ast.Return) and isinstance(n.value, ast.Call) and any(
+                isinstance(x, ast.Call) and isinstance(x.func, ast.Name) and x.func.id == "resolver" for x in ast.walk(n.value)):
+            rets.append(n)
+    if len(rets) != 1:
+        raise AnalysisError("C09.S4: resolver return site not found in Executor.resolve_field")
+    v = rets[0].value
+    outer = ast.unparse(v.func)
+    r.instance("resolve_field returns `%s(...)`" % outer)
+    inner_ok = outer.endswith(".unwrap_value") and v.args and isinstance(v.args[0], ast.Call) and ast.unparse(v.args[0].func).endswith(".map_value")
+    if not inner_ok:
+        run.report(r, "%s:Executor.resolve_field:not-unwrapped" % EXE, f.where(rets[0]),
+                   "resolve_field returns `%s(...)`: the completed value (which wraps the pending sub-selection) is not unwrapped, so "
+                   "in the serial strategy the next top-level field starts while the previous field's sub-fields are still running" % outer)
 
 
 def step_key_names(step):
